@@ -307,9 +307,9 @@ PROPS = {
     },
     "C08": {
         "level": "exploration",
-        "jobs": lambda tier, seed: ports_jobs("c08", tier, seed, extra=lambda q, s, sd: shards("dbg", "w_ports", "c08r --svc local", 2, s, sd, first=60) + shards("dbg", "w_ports", "c08r --svc ipc", 1, s, sd, first=65) + shards("dbg", "w_cal", "c03conn --prop C08 --storage local", 1 if q else 3, s, sd, first=90) + shards("dbg", "w_cal", "c03conn --prop C08 --storage shm", 1 if q else 3, s, sd, first=95)),
-        "rule": "adversarial histories that stay at the limits: publish-subscribe (loans, borrows, publishers, subscribers: limit reached, limit+1 refused with the documented error and without side effect on the model, saturation probe at the end) and request-response (active requests per client, borrowed responses per connection, request buffer at the server); every error/fatal log record inside the contract is a violation; 'a release never fails for lack of queue space' is decided at the connection level with operation-granularity interleavings of sender and receiver (reclaim-all / try_send / receive / release histories against an offset-conservation model). Non-trivial = a history in which at least one limit was hit and enforced; distinct = distinct (config, kinds of events).",
-        "assumptions": COMMON_ASSUMPTIONS + ["event and blackboard limits are exercised by C05/C12/C20 workloads"],
+        "jobs": lambda tier, seed: ports_jobs("c08", tier, seed, extra=lambda q, s, sd: shards("dbg", "w_ports", "c08r --svc local", 2, s, sd, first=60) + shards("dbg", "w_ports", "c08r --svc ipc", 1, s, sd, first=65) + shards("dbg", "w_cal", "c03conn --prop C08 --storage local", 1 if q else 3, s, sd, first=90) + shards("dbg", "w_cal", "c03conn --prop C08 --storage shm", 1 if q else 3, s, sd, first=95) + [Job("dbg", "w_ports", "c08l --shard 0", timeout=600, engine="limit-table"), Job("asan", "w_ports", "c08l --shard 1", timeout=900, engine="limit-table-asan")]),
+        "rule": "adversarial histories that stay at the limits: publish-subscribe (loans, borrows, publishers, subscribers: limit reached, limit+1 refused with the documented error and without side effect on the model, saturation probe at the end) and request-response (active requests per client, borrowed responses per connection, request buffer at the server); every error/fatal log record inside the contract is a violation; 'a release never fails for lack of queue space' is decided at the connection level with operation-granularity interleavings of sender and receiver (reclaim-all / try_send / receive / release histories against an offset-conservation model). Limit table (w_ports c08l, local and ipc): for max_publishers, max_subscribers, max_notifiers, max_listeners, max_clients, max_servers, max_readers, the single writer and max_nodes of each pattern, with every value 1..3: exactly `limit` objects can be created, the next two attempts are refused with the specific documented error, the refusals change neither the service's port counts nor the behaviour of the existing objects (round trip through each), dropping one object makes room for exactly one, and all counts return to zero. Non-trivial = a history in which at least one limit was hit and enforced / a table case; distinct = distinct (config, kinds of events).",
+        "assumptions": COMMON_ASSUMPTIONS + ["wait-set attachment capacity and event-id range are exercised by C20 / C18 workloads"],
         "floor": (300, 50),
     },
     "C11": {
